@@ -267,7 +267,7 @@ Proof.
       apply parse_ref_relative; try reflexivity; try congruence; try assumption.
       + simpl. rewrite lacks_app, Hh. reflexivity.
       + simpl. rewrite lacks_app, Hq. reflexivity. }
-  rewrite Hparse. simpl u_fragment.
+  rewrite Hparse. cbn [u_fragment].
   assert (Hfirst : exists c r, pre ++ l ++ ["/"] = c :: r /\ Ascii.eqb c "/" = false).
   { destruct Hpre as [[-> _]| ->].
     - destruct l as [|c l']; [congruence|]. exists c, (l' ++ ["/"]). split; [reflexivity|].
@@ -311,7 +311,7 @@ Proof.
             {| u_scheme := None; u_authority := None; u_path := [".";".";"/"] ++ b; u_query := oq q; u_fragment := None |}).
   { change ([".";".";"/"] ++ b) with ([".";"."] ++ "/" :: b).
     apply parse_ref_relative; try reflexivity; try congruence; try assumption. }
-  rewrite Hparse. simpl u_fragment.
+  rewrite Hparse. cbn [u_fragment].
   assert (Hfirst : exists c r, [".";".";"/"] ++ b = c :: r /\ Ascii.eqb c "/" = false).
   { exists ".", ("." :: "/" :: b). split; reflexivity. }
   rewrite (resolve_relative t (bb ++ [b]) [] _ q E Hsb Hfirst).
@@ -324,7 +324,7 @@ Proof.
       change (rds [[".";"."]; b] (b :: rev bb ++ [])) with (rds [b] (rev bb ++ [])).
       simpl. rewrite Hd, Hdd. simpl. rewrite app_nil_r, rev_involutive. reflexivity.
     - apply Forall_app. split; [assumption|]. constructor; [assumption|constructor].
-    - congruence. }
+    - simpl. congruence. }
   rewrite Hsplit, qo_oq, bytes_eqb_refl, andb_true_r.
   apply bytes_eqb_eq. rewrite Et.
   rewrite join_seg_app_last by (destruct bb; simpl; congruence).
